@@ -49,6 +49,7 @@ void* SM_ARROW(void* it) { __CPROVER_assert(((void**)it)[0] != 0, "-> on an entr
 uint64_t* LIST_FRONT(void* v) { uint64_t q = nondet_u64(); __CPROVER_assume(q != wc || pend_wc); __CPROVER_assume(T_PROD[q] != 0); /* store invariant of the work list: asserted at every push */ cell_back = q; g_back = q; return &cell_back; }
 void* SM_FIND(void* m, uint64_t* k) { __CPROVER_assert(*k == g_back, "look-up of the state in hand"); _Bool hit = (*k == wc && sm_w) ? 1 : nondet_bool(); cell_sm.f0 = *k; g_sm_key = *k; return hit ? TOK : (void*)0; }
 void* SM_END(void* m) { return (void*)0; }
+uint64_t SM_COUNT(void* m, uint64_t* k) { return nondet_bool(); }     /* count() of the registration map, should the code ask for it */
 void LIST_POP(void* v) { g_q = g_back; q_is_wc = (g_back == wc); if (q_is_wc) pend_wc = 0; }
 void* VECTIP_BEGIN(void* v) { if (v == (void*)&cell_sm.f1) { seen_i = 0; return (q_is_wc && sm_w) ? TOK : MAYBE; } seen_k = 0; return rt_w ? TOK : MAYBE; }
 void* VECTIP_END(void* v) { return (void*)0; }
@@ -72,12 +73,12 @@ uint64_t* CUSI_DEREF(void* it_) { CUSI* it = (CUSI*)it_; __CPROVER_assert(it->f0
 void* CUSI_INC(void* it_) { CUSI* it = (CUSI*)it_; it->f0.f0 = MAYBE; __CPROVER_assume(it->f0.f0 != 0 || !fin_wf || seen_f); return it; }
 uint64_t USET_COUNT(void* s, uint64_t* x) { __CPROVER_assert(*x == g_cur_f, "membership of the final state under the cursor"); g_find_hit = (*x == wc) ? r_wc : ((*x == wf) ? r_wf : ((*x == wx) ? r_wx : nondet_bool())); return g_find_hit ? 1 : 0; }
 uint64_t __CPROVER_uninterpreted_FIN(uint64_t s);
-_Bool ISF(void* a, uint64_t* x) { __CPROVER_assert(a == (void*)g_this && g_new, "finality is asked of *this for the state just reached"); return __CPROVER_uninterpreted_FIN(*x) != 0; }
+_Bool ISF(void* a, uint64_t* x) { __CPROVER_assert(a == (void*)g_this && g_new, "finality is asked of *this for the state just reached"); _Bool r = __CPROVER_uninterpreted_FIN(*x) != 0; if (r) g_found_f = 1; return r; }
 void SSF(void* a, uint64_t* x) { __CPROVER_assert(a == g_local && *x == g_cur_f && g_find_hit, "C03: only a final state of *this that is in the productive set is made final"); if (cur_f) ssf_w = 1; }
 void* SPM_ASSIGN(void* d, void* s) { __CPROVER_assert(d == (void*)&((AUT*)g_local)->f2 && s == (void*)&g_this->f2, "the shortcut shares the whole cluster map of *this"); g_shortcut = 1; return d; }
 void IAT(void* a, void* ch, uint64_t* sym, uint64_t* st) { TI* i = (TI*)g_cur_kept; __CPROVER_assert(a == g_local && ch == (void*)&i->f0 && sym == &i->f1 && st == &i->f2, "C03: the rule added to the result is the one recorded in the kept info under the cursor");
   if (i == &cell_tiw) iat_w = 1; }
 void RUS(void* ret, void* a, void* tm) { __CPROVER_assert(ret == (void*)g_ret && a == g_local && tm == (void*)0, "the result is pruned by RemoveUnreachableStates"); g_ret_kind = 1; }
 void h_CAND(void) { g_this = malloc(sizeof *g_this); g_ret = malloc(sizeof *g_ret); m_this = malloc(64); __CPROVER_assume(g_this && g_ret && m_this); SP_PTR(&g_this->f2) = m_this;
-  SP_PTR(&cell_tiw.f0) = TOKT_W; cell_tiw.f1 = wa; cell_tiw.f2 = wq; g_ret_kind = 0; g_rem = 0; rt_w = 0; sm_w = 0; w_erased = 0; just_wx = 0; ssf_w = 0; iat_w = 0; g_shortcut = 0; g_local = 0;
+  SP_PTR(&cell_tiw.f0) = TOKT_W; cell_tiw.f1 = wa; cell_tiw.f2 = wq; g_ret_kind = 0; g_rem = 0; rt_w = 0; sm_w = 0; w_erased = 0; just_wx = 0; g_found_f = 0; ssf_w = 0; iat_w = 0; g_shortcut = 0; g_local = 0;
   CAND(g_ret, g_this); CANARY("h_CAND"); }
